@@ -128,8 +128,10 @@ def _keyfile(ctx, R, T):
     for rn in gg.live_nodes():
         if rn.kind == "stmt" and isinstance(rn.ast, ast.Return):
             t = T.term(gi, rn, rn.ast.value)
-            ok = t[0] == "CONCAT" and len(t) == 5 and t[1] == ("c", " ") and t[3] == ("c", "@")
-            R.check(ok, "KEYFILE", gi.qualname, "comment = ' ' + user + '@' + host", "get_user_info returns %s, expected ' ' + user + '@' + host" % show(t)[:160], gi.loc(rn.ast))
+            parts = t[1:] if t[0] == "CONCAT" else ()
+            ok = len(parts) in (3, 4) and parts[0] == ("c", " ") and ((len(parts) == 4 and parts[2] == ("c", "@")) or
+                                                                    (len(parts) == 3 and parts[2][0] == "c" and isinstance(parts[2][1], str) and parts[2][1].startswith("@") and len(parts[2][1]) > 1))
+            R.check(ok, "KEYFILE", gi.qualname + "|" + norm_stmt(rn.ast), "comment = ' ' + user + '@' + host", "get_user_info returns %s, expected ' ' + user + '@' + host" % show(t)[:160], gi.loc(rn.ast))
 
 
 def _sign_method(ctx, clsq):
